@@ -56,7 +56,7 @@ theorem parse_slot_fuel (e : Expr) (ts : List Tk) (items : List Item)
     ∃ e' st2, parseExpr pf F 0 (initState items) = .ok (e', st2) ∧ erase e' = erase e ∧ At1 st2 [tEOF] := by
   have hst : At (initState items) (ts ++ tEOF :: []) := by
     have := at_init items; rw [hit] at this; exact this
-  exact slot0 pf T (aAll pf T e) hS (h := tEOF) (Or.inr (Or.inr (Or.inr rfl))) hst (F := F) (by omega)
+  exact slot0 pf T (aAll pf T e) hS (h := tEOF) (Or.inr (Or.inr (Or.inr (Or.inl rfl)))) hst (F := F) (by omega)
 
 /-- the entry point: any rendering of `e` (possibly inside redundant parentheses), with any
     positions, followed by EOF, parses to `e` modulo positions — with the fuel `parseExprEntry` uses -/
@@ -67,7 +67,26 @@ theorem parse_slot_entry (e : Expr) (ts : List Tk) (items : List Item)
     have := congrArg List.length hit; simpa using this
   have hst : At (initState items) (ts ++ tEOF :: []) := by
     have := at_init items; rw [hit] at this; exact this
-  obtain ⟨r, st2, h2, he, _⟩ := slot0 pf T (aAll pf T e) hS (h := tEOF) (Or.inr (Or.inr (Or.inr rfl))) hst
+  obtain ⟨r, st2, h2, he, _⟩ := slot0 pf T (aAll pf T e) hS (h := tEOF) (Or.inr (Or.inr (Or.inr (Or.inl rfl)))) hst
+    (F := fuelFor items.length) (by unfold fuelFor; omega)
+  refine ⟨r, ?_, he⟩
+  unfold parseExprEntry
+  show (match parseExpr pf (fuelFor items.length) 0 (initState items) with
+    | Except.ok (e, _) => Except.ok e
+    | Except.error err => Except.error err) = _
+  rw [h2]
+
+/-- the same with ANY terminator as the last item — in particular the Error item with which the
+    lexer of `parse.Expr` ends a complete expression ("unclosed tag": expression mode starts inside
+    a tag); the parser stops in front of it -/
+theorem parse_slot_entry_term (e : Expr) (ts : List Tk) (h : Tk) (items : List Item)
+    (hS : Slot 0 e (Renders pf e) ts) (ht : isTerm h.typ) (hit : items.map Item.tk = ts ++ [h]) :
+    ∃ e', parseExprEntry pf items = .ok e' ∧ erase e' = erase e := by
+  have hlen : items.length = ts.length + 1 := by
+    have := congrArg List.length hit; simpa using this
+  have hst : At (initState items) (ts ++ h :: []) := by
+    have := at_init items; rw [hit] at this; exact this
+  obtain ⟨r, st2, h2, he, _⟩ := slot0 pf T (aAll pf T e) hS (h := h) ht hst
     (F := fuelFor items.length) (by unfold fuelFor; omega)
   refine ⟨r, ?_, he⟩
   unfold parseExprEntry
